@@ -27,6 +27,8 @@ func RegisterAll() {
 	run.Register(&c03{})
 	run.Register(&c04{})
 	run.Register(&c05{})
+	run.Register(&c06{})
+	run.Register(&c12{})
 }
 
 func hashStr(parts ...string) string {
